@@ -49,6 +49,10 @@ def run(tier, seed):
     # every chosen (transmitter, recipient) a causally valid transmission
     from . import C01
     jobs += C01.quick_filter(util.jobs_for(C01.reg, quals={'Gillespie_SIR', 'Gillespie_SIS'}, tier=tier), tier)
+    # fast_SIS: an entry (t, u, v) is appended by _process_trans_SIS_Markov exactly when v turns S->I at t, with the source stored in the event
+    # (postcondition); the global invariant GI_SIS (lemma event_step_SIS) says of every pending attempt u->v that it goes along an edge from an
+    # infected u strictly before rec_time[u], and _find_next_trans_SIS_Markov only queues a next attempt before the source's recovery
+    jobs += util.jobs_for(C01.reg_fast_sis, tier=tier, quals={'_process_trans_SIS_Markov', '_find_next_trans_SIS_Markov', '_process_rec_SIS_', 'event_step_SIS'})
     jobs += gfull_jobs(tier)      # Gillespie_SIR with return_full_data=True: what is recorded and handed to Simulation_Investigation
     rep.add_unit_results(util.run_jobs(jobs))
     for ob in binding.ctor_obligations():
@@ -69,7 +73,10 @@ def run(tier, seed):
                        'and exactly that list is handed to Simulation_Investigation. Gillespie_SIS with return_full_data=True: per node the lists of infection / recovery times alternate inside [tmin, now] and agree with the status; '
                        'every sourced entry goes along an edge and names, through ghost index maps, the infection of its target at that time (not the initial one) and an infection of its source that covers that time; '
                        'two entries never name the same infection; #sourced entries = #infection events (from the rows); exactly these objects are handed on. '
-                       'Constructor binding for every simulator. fast_SIS, fast_nonMarkov_SIS, generic and discrete simulators are decided only by the bounded native stand-in.')
+                       'fast_SIS: per-entry validity AT THE TIME OF RECORDING is unbounded - the handler appends (t, source of the event, v) exactly when v turns S->I at t, and by the global invariant GI_SIS '
+                       '(queue-rule lemma event_step_SIS) every pending attempt u->v goes along an edge from an infected u strictly before rec_time[u], a next attempt being queued only before the source\'s recovery; '
+                       'that these facts persist as a statement about the finished list (order, one entry per infection) is only observed by the bounded stand-in. '
+                       'Constructor binding for every simulator. fast_nonMarkov_SIS, generic and discrete simulators are decided only by the bounded native stand-in.')
     rep.assumptions += ['queue rule and heapq contract as in C04/C11', 'Simulation_Investigation.transmissions() / transmission_tree() return the stored list / its sourced entries (checked natively)']
-    rep.not_covered += ['unbounded contracts for the transmissions of fast_SIS, fast_nonMarkov_SIS, Gillespie_simple_contagion, discrete simulators; the rho / single-node / default spellings of the Gillespie full-data paths are verified in the thorough tier only']
+    rep.not_covered += ['a list invariant over the finished transmission list of fast_SIS (per-entry validity is proved at recording time only); unbounded contracts for the transmissions of fast_nonMarkov_SIS, Gillespie_simple_contagion, discrete simulators; the rho / single-node / default spellings of the Gillespie full-data paths are verified in the thorough tier only']
     return rep, util.native_replayer
